@@ -57,6 +57,8 @@ const (
 type c15xUpd struct {
 	kind    int
 	matched int
+	state   int16  // c15xUpdAmpState: the state written
+	setID   []byte // c15xUpdAmpState: the set
 }
 
 // invoice_events rows (kind: 0 created, 1 canceled, 2 settled; amp: sub-invoice event)
@@ -405,7 +407,7 @@ func (f *c15xSQL) UpdateAMPSubInvoiceState(_ context.Context,
 		n++
 	}
 	f.sub = rows
-	f.logUpd(c15xUpdAmpState, n)
+	f.upd = append(f.upd, c15xUpd{kind: c15xUpdAmpState, matched: n, state: arg.State, setID: arg.SetID})
 	return nil
 }
 
